@@ -372,17 +372,19 @@ func c09SymKey(r *core.Run) {
 			continue
 		}
 		buf := rv[0]
-		ms, isMS := buf.(*ssa.MakeSlice)
-		if !isMS {
+		size := int64(-1)
+		if ms, isMS := buf.(*ssa.MakeSlice); isMS {
+			// size 32 (φ/const) on the aes_256_cbc arm
+			for _, v := range phiLeaves(ms.Len, nil) {
+				if c, isC := core.ConstInt64(v); isC && c != 0 {
+					size = c
+				}
+			}
+		} else if k, isK := core.MakeLen(buf); isK {
+			size = k // make with a constant size (go/ssa: new [k]byte + slice)
+		} else {
 			why = "the returned key is not the freshly made buffer"
 			continue
-		}
-		// size 32 (φ/const) on the aes_256_cbc arm
-		size := int64(-1)
-		for _, v := range phiLeaves(ms.Len, nil) {
-			if c, isC := core.ConstInt64(v); isC && c != 0 {
-				size = c
-			}
 		}
 		filled := false
 		for _, c := range core.Calls(fn) {
